@@ -11,6 +11,10 @@ CONSTANTS
   Codecs = FALSE
   LazyC = FALSE
   LazyInner = FALSE
+  Mixin = "dict"
+  KwFlags = FALSE
+  FmtsOf <- MCFmtsOf
+  KwNames <- MCKwNames
 INIT Init
 NEXT Next
 INVARIANT Faithful
